@@ -168,6 +168,50 @@ def install_admm_monitor(keep_state=False):
     solver.check_convergence = check_convergence
 
 
+# --------------------------------------------------------------------------- what the optimiser entry point receives (worker side)
+
+ENTRY_LAST = []
+
+
+def _receipt(arguments):
+    out = {}
+    for k_, v in arguments.items():
+        if k_ in ("empirical_covariance", "sparsity_weight"):
+            out[k_] = np.array(v, copy=True) if isinstance(v, np.ndarray) else v
+        elif k_ in ("window_size", "num_data_series"):
+            out[k_] = v
+    return out
+
+
+def install_entry_monitor():
+    """Wraps the public optimiser entry point IN THIS PROCESS and records what each call receives.  Only ever installed inside pool
+    workers (from inject.task_shim): in the parent it would change the object the library submits to its pool."""
+    import functools
+    import inspect
+    from fast_ticc.admm import front_end as fe
+    cur = fe.admm_optimize_theta
+    if getattr(cur, "_ticcmon_entry", False):
+        return cur
+    orig = cur
+    sig = inspect.signature(orig)
+
+    @functools.wraps(orig)
+    def admm_optimize_theta(*a, **k):
+        try:
+            b = sig.bind(*a, **k)
+            b.apply_defaults()
+            ENTRY_LAST.append(_receipt(b.arguments))
+        except TypeError:
+            ENTRY_LAST.append({"unbound": True})
+        return orig(*a, **k)
+    admm_optimize_theta._ticcmon_entry = True
+    admm_optimize_theta._orig = orig
+    for name, mod in list(sys.modules.items()):
+        if name.startswith("fast_ticc") and mod is not None and getattr(mod, "admm_optimize_theta", None) is orig:
+            setattr(mod, "admm_optimize_theta", admm_optimize_theta)
+    return admm_optimize_theta
+
+
 # --------------------------------------------------------------------------- run recorder
 
 class Recorder:
@@ -191,7 +235,7 @@ class Recorder:
 
 
 REC = Recorder()
-PLAN = {"task": {}, "phase": {}, "init_labels": None, "label_script": None, "label_script_then": None, "round_budget": None}
+PLAN = {"task": {}, "phase": {}, "init_labels": None, "label_script": None, "label_script_then": None, "round_budget": None, "gmm_max_iter": None}
 
 
 class RoundBudgetExceeded(Exception):
@@ -372,6 +416,28 @@ def install_pool_shim():
     mpp.Pool.apply_async = apply_async
 
 
+def install_gmm_stress():
+    """Stress injection for the seeding mixture model: with PLAN["gmm_max_iter"] = n every fit of scikit-learn's GaussianMixture in
+    this process stops after at most n EM steps (the mixture 'runs out of steps', as it does by itself on rare large inputs)."""
+    import sklearn.mixture as skm
+    if getattr(skm.GaussianMixture.fit, "_ticcmon", False):
+        return
+    orig = skm.GaussianMixture.fit
+
+    def fit(self, X, y=None):
+        n = PLAN.get("gmm_max_iter")
+        if n:
+            self.max_iter = int(n)
+        r = orig(self, X, y)
+        count("mixture_fits")
+        if not getattr(self, "converged_", True):
+            count("mixture_fits_not_converged")
+        return r
+    fit._ticcmon = True
+    fit._orig = orig
+    skm.GaussianMixture.fit = fit
+
+
 def install_fork_audit():
     if _INSTALLED.get("audit"):
         return
@@ -395,6 +461,7 @@ def install_all():
     install_init_labels_hook()
     install_pool_shim()
     install_fork_audit()
+    install_gmm_stress()
 
 
 def reset_run():
